@@ -62,6 +62,9 @@ class SeqV:
     def sym_len(self):
         return sp.Symbol("NSEQ", positive=True, integer=True)
 
+    def sym_enumerate(self, ev, n, mod):
+        return Tup([Tup([LoopIdx(self), EachOf(self)])], "list")
+
 
 class EachOf:
     """marker: iteration variable ranging over all elements of a SeqV (comprehension / loop)"""
